@@ -65,8 +65,10 @@ type Engine struct {
 	Obls      []*Obligation
 	Specs     map[string]SpecFunc
 	Hook      CallHook
-	Axioms    []smt.T // instantiated global axioms (from //@ axiom and string literals)
-	Errors    []string
+	// SpecFallback resolves spec-level function names the engine does not know (client hook).
+	SpecFallback func(e *Engine, env *SpecEnv, x *spec.Call) (Val, bool, error)
+	Axioms       []smt.T // instantiated global axioms (from //@ axiom and string literals)
+	Errors       []string
 
 	fresh         int
 	litSig        *types.Signature            // signature of the function literal being executed
@@ -243,7 +245,8 @@ type State struct {
 	named map[string]Val // $i, $v, $k, $vis, result names, ghost names
 	heap  smt.T
 	pc    []smt.T
-	fresh []smt.T // pointers allocated by the function under verification
+	facts map[string]bool // assumptions that are facts about pure callees (not branch conditions)
+	fresh []smt.T         // pointers allocated by the function under verification
 	dead  bool
 }
 
@@ -257,6 +260,12 @@ func (s *State) Clone() *State {
 	}
 	n.pc = append([]smt.T(nil), s.pc...)
 	n.fresh = append([]smt.T(nil), s.fresh...)
+	if s.facts != nil {
+		n.facts = make(map[string]bool, len(s.facts))
+		for k := range s.facts {
+			n.facts[k] = true
+		}
+	}
 	return n
 }
 
@@ -264,6 +273,18 @@ func (s *State) Assume(t smt.T) {
 	if t.S == "true" {
 		return
 	}
+	s.pc = append(s.pc, t)
+}
+
+// AssumeFact records an assumption that does not depend on the path taken (a callee's postcondition).
+func (s *State) AssumeFact(t smt.T) {
+	if t.S == "true" {
+		return
+	}
+	if s.facts == nil {
+		s.facts = map[string]bool{}
+	}
+	s.facts[t.S] = true
 	s.pc = append(s.pc, t)
 }
 
